@@ -455,7 +455,9 @@ func c02StreamRoots(c *core.Ctx, r *core.Rand) {
 				c.Fail("C02/encodedlength-mismatch", core.Replay{Kind: "oracle", Case: caseID, Impl: fmt.Sprint(l, err), Expected: fmt.Sprint(len(wantBytes))})
 			}
 			nb := basicnode.Prototype.Any.NewBuilder()
-			if err := dagcbor.Decode(nb, bytes.NewReader(got.Bytes())); err != nil {
+			// (decoded with an allocation budget that pays for the content: the DEFAULT budget refusing a 16 MiB string is
+			// C10's bound at work, not a failure to round-trip)
+			if err := (dagcbor.DecodeOptions{AllowLinks: true, AllocationBudget: int64(L) + 1<<20}).Decode(nb, bytes.NewReader(got.Bytes())); err != nil {
 				c.Fail("C02/own-output-not-decodable", core.Replay{Kind: "oracle", Case: caseID, Impl: err.Error(), Expected: "decodes"})
 			}
 		}
